@@ -209,6 +209,13 @@ func init() {
 		r := NewRng(cfg.Seed)
 		var inputs []string
 		seen := map[string]bool{}
+		// corpus first: witnesses of the recorded findings and past disagreements
+		for _, s := range []string{"git::https://example.com/foo.git//dir with space", "git::https://example.com/a%2Fb.git//sub", "git::https://h/x.git//sub#frag",
+			"git::https://h/x.git#frag", "https://h/dl/?archive=tgz", "example.com/foo/bar/baz//@sub", "git::https://h/a b.git", "./a", "../", "https://example.com/foo.tar.gz?checksum=",
+			"https://example.com/foo.tar.gz?checksum=&checksum=sha256:x", "git::https://user@example.com/x.git", "GIT::HTTPS://example.com/x.git?ref=a&ref=b"} {
+			seen[s] = true
+			inputs = append(inputs, s)
+		}
 		for i := 0; i < cfg.N; i++ {
 			s := genAddr(r)
 			if !seen[s] {
@@ -287,10 +294,14 @@ func init() {
 			rep.Count("valid-grammar")
 		}
 		// ---- MakeRemoteSource(type, URL, sub-path) ----
-		for i := 0; i < cfg.N/4; i++ {
+		makeCorpus := [][3]string{{"git", "https://h/a//b.tgz", ""}, {"https", "https://h/foo.tar.gz?x=%zz", ""}, {"git", "https://user:pw@example.com/x.git", ""}, {"https", "https://example.com/x.tgz?checksum=", ""}}
+		for i := 0; i < cfg.N/4+len(makeCorpus); i++ {
 			ty := r.Pick([]string{"git", "https", "http", "hg", "GIT", ""})
 			us := strings.TrimRight(r.Pick(aSchemes), "")+r.Pick(aUsers)+r.Pick(aHosts)+r.Pick(aPaths)+r.Pick(aQueries)+r.Pick(aFrags)
 			sub := strings.TrimPrefix(r.Pick(aSubs), "//")
+			if i < len(makeCorpus) {
+				ty, us, sub = makeCorpus[i][0], makeCorpus[i][1], makeCorpus[i][2]
+			}
 			u, perr := url.Parse(us)
 			if perr != nil {
 				continue
